@@ -23,6 +23,11 @@ def val(e, env):
         return env.get(("load", e[1]))
     if k == "arg":
         return env.get(e)
+    if k == "addr":
+        if e in env:
+            return env[e]
+        import zlib
+        return 0x7f0000000000 + (zlib.crc32(e[1].encode()) << 4)      # distinct, non-zero, aligned: only (in)equality is meaningful
     if k == "phi":
         return env.get(e)
     if k in ("zext", "sext", "trunc", "cast") and isinstance(e[-1], tuple):
